@@ -226,6 +226,20 @@ func c17RunPlain(in *epochInput, between func(ep int)) (t c17Trace) {
 		for i, o := range pop.Organisms {
 			o.Fitness = fitnessFor(in.FitRule, ep, i, o.Genotype)
 		}
+		if c17DebugLevel {
+			// the repeat pass also LOOKS at the evaluated population before turning it over (prints it whole and by
+			// species, verifies it): observing is not an input of the run either
+			func() {
+				defer func() { _ = recover() }()
+				_ = pop.Write(io.Discard)
+				_ = pop.WriteBySpecies(io.Discard)
+				_, _ = pop.Verify()
+				for _, sp := range pop.Species {
+					_ = sp.Write(io.Discard)
+					_ = fmt.Sprint(sp.FindChampion() != nil)
+				}
+			}()
+		}
 		var eerr error
 		func() {
 			defer func() {
@@ -441,14 +455,26 @@ func c17Check(r *Run, ins []*epochInput, chunk int) []c17Trace {
 		p1[i] = c17RunPlain(parsed[i], nil)
 	}
 	c17DebugLevel = true
+	var used *neat.Options
 	for i := len(parsed) - 1; i >= 0; i-- {
-		p2[i] = c17RunPlain(parsed[i], nil)
+		// the repeat pass hands the run an Options VALUE that was used before with other settings: a struct copy of
+		// the previous history's options whose exported fields are then set to this history's (whatever a used
+		// Options value remembers in unexported fields must not matter)
+		in := *parsed[i]
+		if used != nil {
+			o := *used
+			if b, err := json.Marshal(parsed[i].Opts); err == nil && json.Unmarshal(b, &o) == nil {
+				in.Opts = &o
+			}
+		}
+		p2[i] = c17RunPlain(&in, nil)
+		used = in.Opts
 	}
 	c17DebugLevel = false
 	wg.Wait()
 	byHist := make([][]c17Run, len(ins))
 	for i := range ins {
-		byHist[i] = []c17Run{{"parent", &p1[i]}, {"parent (repeat, global log level debug)", &p2[i]}}
+		byHist[i] = []c17Run{{"parent", &p1[i]}, {"parent (repeat, global log level debug, population printed before every turnover, reused Options value)", &p2[i]}}
 	}
 	for _, c := range all {
 		for k := range c.res.traces {
@@ -533,6 +559,12 @@ func runC17(r *Run) error {
 	// larger populations and longer runs: (b) and (c) only
 	for i := 0; i < r.N(30, 600); i++ {
 		ins = append(ins, newEpochInput(r, "C17", 70, 25, true))
+	}
+	// fitness values of mixed sign (every negative value is clamped to one number: ties in the adjusted order)
+	for i := 0; i < r.N(6, 80); i++ {
+		in := newEpochInput(r, "C17", 40, 10, true)
+		in.FitRule = 5
+		ins = append(ins, in)
 	}
 	nLarge := len(ins)
 	// small populations whose fitness values tie everywhere (all-zero / constant), many species: the histories on
